@@ -726,3 +726,6 @@ mod tests {
         );
     }
 }
+
+#[cfg(kani)]
+pub(crate) mod verif_kani;
